@@ -598,6 +598,7 @@ type FuncContract struct {
 	Pure        bool // no heap effect at all
 	NoSafety    bool // the zero-annotation safety sweep is not claimed for this function
 	Opaque      bool // trusted contract whose body is never examined (not even for its write/allocation summary)
+	HavocAll    bool // "modifies everything": the callee may change any real heap location (ghost state is kept)
 	RecvName    string
 	ParamNames  []string // including receiver first, if any
 	ResultNames []string
@@ -984,6 +985,10 @@ func ParseContractFile(path, pkgPath, text string) (*ContractFile, error) {
 			for _, part := range splitTop(rest, ',') {
 				part = strings.TrimSpace(part)
 				if part == "" || part == "nothing" {
+					continue
+				}
+				if part == "everything" {
+					cur.HavocAll = true
 					continue
 				}
 				ml := ModLoc{Src: part}
